@@ -30,7 +30,7 @@ FULL_TAGS = {"empty-container", "bytes-delete", "bytes-dup", "delete-elem", "dup
              "set-int", "flip-bool"}
 
 
-def world(rng, suite, heavy=True):
+def world(rng, suite, heavy=True, order=None):
     """two credentials, every statement kind; statement ids in canonical CBOR map order"""
     creds = [
         {"claims": [{"t": "r", "s": "id-0-1"}, CC.claim(rng, "h", "Alice"), CC.claim(rng, "n", 41), CC.claim(rng, "s"), CC.claim(rng, "h", "x")]},
@@ -49,7 +49,29 @@ def world(rng, suite, heavy=True):
     if heavy:
         stmts += [{"k": "venc", "id": "h0", "ref": "a1", "claim": 2, "dec": True, "gen": "std"},
                   {"k": "vdec", "id": "i0", "ref": "a0", "claim": 1, "gen": "std"}]
+    if order is not None:
+        stmts = reorder(stmts, order, rng)
     return {"suite": suite, "seed": 1, "nonce": "0011", "creds": creds, "stmts": stmts}
+
+
+def reorder(stmts, order, rng):
+    """statements in another order (reversed / shuffled); ids renamed so that the canonical CBOR map order is that order"""
+    st = list(stmts)
+    if order == "rev":
+        st.reverse()
+    else:
+        rng.shuffle(st)
+    ren = {s["id"]: "%c%d" % (ord("a") + i, 0) for i, s in enumerate(st)}
+    out = []
+    for s in st:
+        t = dict(s, id=ren[s["id"]])
+        for k in ("ref", "sig"):
+            if k in t:
+                t[k] = ren[t[k]]
+        if "refs" in t:
+            t["refs"] = sorted([ren[r[0]], r[1]] for r in t["refs"])     # (a CBOR map again: canonical order)
+        out.append(t)
+    return out
 
 
 def small_world(rng, suite):
@@ -237,6 +259,11 @@ def explore(ctx):
         for obj in ("pres", "schema"):
             jobs.append((f"verify:{suite}:{obj}:full", dict(wf, op="f_total", target="verify", obj=obj)))
             jobs.append((f"verify:{suite}:{obj}:small", dict(ws, op="f_total", target="verify", obj=obj)))
+        # the same statements in other schema orders (a statement before the one it references)
+        for k, order in enumerate(["rev"] + (["shuffle"] * 3 if tier == "thorough" else [])):
+            wr = world(rng, suite, heavy=False, order=order)
+            jobs.append((f"verify:{suite}:pres:order{k}", dict(wr, op="f_total", target="verify", obj="pres")))
+            jobs.append((f"create:{suite}:schema:order{k}", dict(wr, op="f_total", target="create", obj="schema")))
         for obj in ("schema", "creds"):
             jobs.append((f"create:{suite}:{obj}", dict(wl if tier == "quick" else wf, op="f_total", target="create", obj=obj)))
             jobs.append((f"create:{suite}:{obj}:small", dict(ws, op="f_total", target="create", obj=obj)))
